@@ -87,7 +87,8 @@ Record st := {
   cur : Z * Z; prev : Z * Z;  (* barrier(): current_counts / previous_counts *)
   red_done : bool;
   oracle : list resp;
-  log : list event            (* newest first *)
+  log : list event;           (* newest first *)
+  enq : list (Z * msg)        (* ghost: every (rank, message) ever appended to a send buffer, newest first (RankNoErr.v: conservation) *)
 }.
 
 Inductive res := Ok (s : st) | Blocked (s : st) | Err (what : nat) (s : st) | OutOfFuel.
@@ -99,7 +100,7 @@ Definition emit (e : event) (s : st) : st :=
   {| bufs := bufs s; sbb := sbb s; dq := dq s; sendq := sendq s; pend := pend s; cbs := cbs s; intr := intr s; inprq := inprq s;
      rcnt := rcnt s; scnt := scnt s; ictr := ictr s; ret := ret s; depth := depth s; masks := masks s; flags := flags s;
      shared := shared s; nbar := nbar s; inmain := inmain s; cur := cur s; prev := prev s; red_done := red_done s;
-     oracle := oracle s; log := e :: log s |}.
+     oracle := oracle s; log := e :: log s; enq := enq s |}.
 
 Definition upd {A} (l : list A) (i : nat) (x : A) : list A :=
   firstn i l ++ match skipn i l with [] => [] | _ :: t => x :: t end.
@@ -107,28 +108,29 @@ Definition upd {A} (l : list A) (i : nat) (x : A) : list A :=
 Definition buf_at (s : st) (d : Z) : list msg := nth (Z.to_nat d) (bufs s) [].
 
 (* field setters (record update spelled out once) *)
-Definition set_bufs v s := {| bufs := v; sbb := sbb s; dq := dq s; sendq := sendq s; pend := pend s; cbs := cbs s; intr := intr s; inprq := inprq s; rcnt := rcnt s; scnt := scnt s; ictr := ictr s; ret := ret s; depth := depth s; masks := masks s; flags := flags s; shared := shared s; nbar := nbar s; inmain := inmain s; cur := cur s; prev := prev s; red_done := red_done s; oracle := oracle s; log := log s |}.
-Definition set_sbb v s := {| bufs := bufs s; sbb := v; dq := dq s; sendq := sendq s; pend := pend s; cbs := cbs s; intr := intr s; inprq := inprq s; rcnt := rcnt s; scnt := scnt s; ictr := ictr s; ret := ret s; depth := depth s; masks := masks s; flags := flags s; shared := shared s; nbar := nbar s; inmain := inmain s; cur := cur s; prev := prev s; red_done := red_done s; oracle := oracle s; log := log s |}.
-Definition set_dq v s := {| bufs := bufs s; sbb := sbb s; dq := v; sendq := sendq s; pend := pend s; cbs := cbs s; intr := intr s; inprq := inprq s; rcnt := rcnt s; scnt := scnt s; ictr := ictr s; ret := ret s; depth := depth s; masks := masks s; flags := flags s; shared := shared s; nbar := nbar s; inmain := inmain s; cur := cur s; prev := prev s; red_done := red_done s; oracle := oracle s; log := log s |}.
-Definition set_sendq v s := {| bufs := bufs s; sbb := sbb s; dq := dq s; sendq := v; pend := pend s; cbs := cbs s; intr := intr s; inprq := inprq s; rcnt := rcnt s; scnt := scnt s; ictr := ictr s; ret := ret s; depth := depth s; masks := masks s; flags := flags s; shared := shared s; nbar := nbar s; inmain := inmain s; cur := cur s; prev := prev s; red_done := red_done s; oracle := oracle s; log := log s |}.
-Definition set_pend v s := {| bufs := bufs s; sbb := sbb s; dq := dq s; sendq := sendq s; pend := v; cbs := cbs s; intr := intr s; inprq := inprq s; rcnt := rcnt s; scnt := scnt s; ictr := ictr s; ret := ret s; depth := depth s; masks := masks s; flags := flags s; shared := shared s; nbar := nbar s; inmain := inmain s; cur := cur s; prev := prev s; red_done := red_done s; oracle := oracle s; log := log s |}.
-Definition set_cbs v s := {| bufs := bufs s; sbb := sbb s; dq := dq s; sendq := sendq s; pend := pend s; cbs := v; intr := intr s; inprq := inprq s; rcnt := rcnt s; scnt := scnt s; ictr := ictr s; ret := ret s; depth := depth s; masks := masks s; flags := flags s; shared := shared s; nbar := nbar s; inmain := inmain s; cur := cur s; prev := prev s; red_done := red_done s; oracle := oracle s; log := log s |}.
-Definition set_intr v s := {| bufs := bufs s; sbb := sbb s; dq := dq s; sendq := sendq s; pend := pend s; cbs := cbs s; intr := v; inprq := inprq s; rcnt := rcnt s; scnt := scnt s; ictr := ictr s; ret := ret s; depth := depth s; masks := masks s; flags := flags s; shared := shared s; nbar := nbar s; inmain := inmain s; cur := cur s; prev := prev s; red_done := red_done s; oracle := oracle s; log := log s |}.
-Definition set_inprq v s := {| bufs := bufs s; sbb := sbb s; dq := dq s; sendq := sendq s; pend := pend s; cbs := cbs s; intr := intr s; inprq := v; rcnt := rcnt s; scnt := scnt s; ictr := ictr s; ret := ret s; depth := depth s; masks := masks s; flags := flags s; shared := shared s; nbar := nbar s; inmain := inmain s; cur := cur s; prev := prev s; red_done := red_done s; oracle := oracle s; log := log s |}.
-Definition set_rcnt v s := {| bufs := bufs s; sbb := sbb s; dq := dq s; sendq := sendq s; pend := pend s; cbs := cbs s; intr := intr s; inprq := inprq s; rcnt := v; scnt := scnt s; ictr := ictr s; ret := ret s; depth := depth s; masks := masks s; flags := flags s; shared := shared s; nbar := nbar s; inmain := inmain s; cur := cur s; prev := prev s; red_done := red_done s; oracle := oracle s; log := log s |}.
-Definition set_scnt v s := {| bufs := bufs s; sbb := sbb s; dq := dq s; sendq := sendq s; pend := pend s; cbs := cbs s; intr := intr s; inprq := inprq s; rcnt := rcnt s; scnt := v; ictr := ictr s; ret := ret s; depth := depth s; masks := masks s; flags := flags s; shared := shared s; nbar := nbar s; inmain := inmain s; cur := cur s; prev := prev s; red_done := red_done s; oracle := oracle s; log := log s |}.
-Definition set_ictr v s := {| bufs := bufs s; sbb := sbb s; dq := dq s; sendq := sendq s; pend := pend s; cbs := cbs s; intr := intr s; inprq := inprq s; rcnt := rcnt s; scnt := scnt s; ictr := v; ret := ret s; depth := depth s; masks := masks s; flags := flags s; shared := shared s; nbar := nbar s; inmain := inmain s; cur := cur s; prev := prev s; red_done := red_done s; oracle := oracle s; log := log s |}.
-Definition set_ret v s := {| bufs := bufs s; sbb := sbb s; dq := dq s; sendq := sendq s; pend := pend s; cbs := cbs s; intr := intr s; inprq := inprq s; rcnt := rcnt s; scnt := scnt s; ictr := ictr s; ret := v; depth := depth s; masks := masks s; flags := flags s; shared := shared s; nbar := nbar s; inmain := inmain s; cur := cur s; prev := prev s; red_done := red_done s; oracle := oracle s; log := log s |}.
-Definition set_depth v s := {| bufs := bufs s; sbb := sbb s; dq := dq s; sendq := sendq s; pend := pend s; cbs := cbs s; intr := intr s; inprq := inprq s; rcnt := rcnt s; scnt := scnt s; ictr := ictr s; ret := ret s; depth := v; masks := masks s; flags := flags s; shared := shared s; nbar := nbar s; inmain := inmain s; cur := cur s; prev := prev s; red_done := red_done s; oracle := oracle s; log := log s |}.
-Definition set_masks v s := {| bufs := bufs s; sbb := sbb s; dq := dq s; sendq := sendq s; pend := pend s; cbs := cbs s; intr := intr s; inprq := inprq s; rcnt := rcnt s; scnt := scnt s; ictr := ictr s; ret := ret s; depth := depth s; masks := v; flags := flags s; shared := shared s; nbar := nbar s; inmain := inmain s; cur := cur s; prev := prev s; red_done := red_done s; oracle := oracle s; log := log s |}.
-Definition set_flags v s := {| bufs := bufs s; sbb := sbb s; dq := dq s; sendq := sendq s; pend := pend s; cbs := cbs s; intr := intr s; inprq := inprq s; rcnt := rcnt s; scnt := scnt s; ictr := ictr s; ret := ret s; depth := depth s; masks := masks s; flags := v; shared := shared s; nbar := nbar s; inmain := inmain s; cur := cur s; prev := prev s; red_done := red_done s; oracle := oracle s; log := log s |}.
-Definition set_shared v s := {| bufs := bufs s; sbb := sbb s; dq := dq s; sendq := sendq s; pend := pend s; cbs := cbs s; intr := intr s; inprq := inprq s; rcnt := rcnt s; scnt := scnt s; ictr := ictr s; ret := ret s; depth := depth s; masks := masks s; flags := flags s; shared := v; nbar := nbar s; inmain := inmain s; cur := cur s; prev := prev s; red_done := red_done s; oracle := oracle s; log := log s |}.
-Definition set_nbar v s := {| bufs := bufs s; sbb := sbb s; dq := dq s; sendq := sendq s; pend := pend s; cbs := cbs s; intr := intr s; inprq := inprq s; rcnt := rcnt s; scnt := scnt s; ictr := ictr s; ret := ret s; depth := depth s; masks := masks s; flags := flags s; shared := shared s; nbar := v; inmain := inmain s; cur := cur s; prev := prev s; red_done := red_done s; oracle := oracle s; log := log s |}.
-Definition set_inmain v s := {| bufs := bufs s; sbb := sbb s; dq := dq s; sendq := sendq s; pend := pend s; cbs := cbs s; intr := intr s; inprq := inprq s; rcnt := rcnt s; scnt := scnt s; ictr := ictr s; ret := ret s; depth := depth s; masks := masks s; flags := flags s; shared := shared s; nbar := nbar s; inmain := v; cur := cur s; prev := prev s; red_done := red_done s; oracle := oracle s; log := log s |}.
-Definition set_cur v s := {| bufs := bufs s; sbb := sbb s; dq := dq s; sendq := sendq s; pend := pend s; cbs := cbs s; intr := intr s; inprq := inprq s; rcnt := rcnt s; scnt := scnt s; ictr := ictr s; ret := ret s; depth := depth s; masks := masks s; flags := flags s; shared := shared s; nbar := nbar s; inmain := inmain s; cur := v; prev := prev s; red_done := red_done s; oracle := oracle s; log := log s |}.
-Definition set_prev v s := {| bufs := bufs s; sbb := sbb s; dq := dq s; sendq := sendq s; pend := pend s; cbs := cbs s; intr := intr s; inprq := inprq s; rcnt := rcnt s; scnt := scnt s; ictr := ictr s; ret := ret s; depth := depth s; masks := masks s; flags := flags s; shared := shared s; nbar := nbar s; inmain := inmain s; cur := cur s; prev := v; red_done := red_done s; oracle := oracle s; log := log s |}.
-Definition set_red_done v s := {| bufs := bufs s; sbb := sbb s; dq := dq s; sendq := sendq s; pend := pend s; cbs := cbs s; intr := intr s; inprq := inprq s; rcnt := rcnt s; scnt := scnt s; ictr := ictr s; ret := ret s; depth := depth s; masks := masks s; flags := flags s; shared := shared s; nbar := nbar s; inmain := inmain s; cur := cur s; prev := prev s; red_done := v; oracle := oracle s; log := log s |}.
-Definition set_oracle v s := {| bufs := bufs s; sbb := sbb s; dq := dq s; sendq := sendq s; pend := pend s; cbs := cbs s; intr := intr s; inprq := inprq s; rcnt := rcnt s; scnt := scnt s; ictr := ictr s; ret := ret s; depth := depth s; masks := masks s; flags := flags s; shared := shared s; nbar := nbar s; inmain := inmain s; cur := cur s; prev := prev s; red_done := red_done s; oracle := v; log := log s |}.
+Definition set_bufs v s := {| bufs := v; sbb := sbb s; dq := dq s; sendq := sendq s; pend := pend s; cbs := cbs s; intr := intr s; inprq := inprq s; rcnt := rcnt s; scnt := scnt s; ictr := ictr s; ret := ret s; depth := depth s; masks := masks s; flags := flags s; shared := shared s; nbar := nbar s; inmain := inmain s; cur := cur s; prev := prev s; red_done := red_done s; oracle := oracle s; log := log s; enq := enq s |}.
+Definition set_sbb v s := {| bufs := bufs s; sbb := v; dq := dq s; sendq := sendq s; pend := pend s; cbs := cbs s; intr := intr s; inprq := inprq s; rcnt := rcnt s; scnt := scnt s; ictr := ictr s; ret := ret s; depth := depth s; masks := masks s; flags := flags s; shared := shared s; nbar := nbar s; inmain := inmain s; cur := cur s; prev := prev s; red_done := red_done s; oracle := oracle s; log := log s; enq := enq s |}.
+Definition set_dq v s := {| bufs := bufs s; sbb := sbb s; dq := v; sendq := sendq s; pend := pend s; cbs := cbs s; intr := intr s; inprq := inprq s; rcnt := rcnt s; scnt := scnt s; ictr := ictr s; ret := ret s; depth := depth s; masks := masks s; flags := flags s; shared := shared s; nbar := nbar s; inmain := inmain s; cur := cur s; prev := prev s; red_done := red_done s; oracle := oracle s; log := log s; enq := enq s |}.
+Definition set_sendq v s := {| bufs := bufs s; sbb := sbb s; dq := dq s; sendq := v; pend := pend s; cbs := cbs s; intr := intr s; inprq := inprq s; rcnt := rcnt s; scnt := scnt s; ictr := ictr s; ret := ret s; depth := depth s; masks := masks s; flags := flags s; shared := shared s; nbar := nbar s; inmain := inmain s; cur := cur s; prev := prev s; red_done := red_done s; oracle := oracle s; log := log s; enq := enq s |}.
+Definition set_pend v s := {| bufs := bufs s; sbb := sbb s; dq := dq s; sendq := sendq s; pend := v; cbs := cbs s; intr := intr s; inprq := inprq s; rcnt := rcnt s; scnt := scnt s; ictr := ictr s; ret := ret s; depth := depth s; masks := masks s; flags := flags s; shared := shared s; nbar := nbar s; inmain := inmain s; cur := cur s; prev := prev s; red_done := red_done s; oracle := oracle s; log := log s; enq := enq s |}.
+Definition set_cbs v s := {| bufs := bufs s; sbb := sbb s; dq := dq s; sendq := sendq s; pend := pend s; cbs := v; intr := intr s; inprq := inprq s; rcnt := rcnt s; scnt := scnt s; ictr := ictr s; ret := ret s; depth := depth s; masks := masks s; flags := flags s; shared := shared s; nbar := nbar s; inmain := inmain s; cur := cur s; prev := prev s; red_done := red_done s; oracle := oracle s; log := log s; enq := enq s |}.
+Definition set_intr v s := {| bufs := bufs s; sbb := sbb s; dq := dq s; sendq := sendq s; pend := pend s; cbs := cbs s; intr := v; inprq := inprq s; rcnt := rcnt s; scnt := scnt s; ictr := ictr s; ret := ret s; depth := depth s; masks := masks s; flags := flags s; shared := shared s; nbar := nbar s; inmain := inmain s; cur := cur s; prev := prev s; red_done := red_done s; oracle := oracle s; log := log s; enq := enq s |}.
+Definition set_inprq v s := {| bufs := bufs s; sbb := sbb s; dq := dq s; sendq := sendq s; pend := pend s; cbs := cbs s; intr := intr s; inprq := v; rcnt := rcnt s; scnt := scnt s; ictr := ictr s; ret := ret s; depth := depth s; masks := masks s; flags := flags s; shared := shared s; nbar := nbar s; inmain := inmain s; cur := cur s; prev := prev s; red_done := red_done s; oracle := oracle s; log := log s; enq := enq s |}.
+Definition set_rcnt v s := {| bufs := bufs s; sbb := sbb s; dq := dq s; sendq := sendq s; pend := pend s; cbs := cbs s; intr := intr s; inprq := inprq s; rcnt := v; scnt := scnt s; ictr := ictr s; ret := ret s; depth := depth s; masks := masks s; flags := flags s; shared := shared s; nbar := nbar s; inmain := inmain s; cur := cur s; prev := prev s; red_done := red_done s; oracle := oracle s; log := log s; enq := enq s |}.
+Definition set_scnt v s := {| bufs := bufs s; sbb := sbb s; dq := dq s; sendq := sendq s; pend := pend s; cbs := cbs s; intr := intr s; inprq := inprq s; rcnt := rcnt s; scnt := v; ictr := ictr s; ret := ret s; depth := depth s; masks := masks s; flags := flags s; shared := shared s; nbar := nbar s; inmain := inmain s; cur := cur s; prev := prev s; red_done := red_done s; oracle := oracle s; log := log s; enq := enq s |}.
+Definition set_ictr v s := {| bufs := bufs s; sbb := sbb s; dq := dq s; sendq := sendq s; pend := pend s; cbs := cbs s; intr := intr s; inprq := inprq s; rcnt := rcnt s; scnt := scnt s; ictr := v; ret := ret s; depth := depth s; masks := masks s; flags := flags s; shared := shared s; nbar := nbar s; inmain := inmain s; cur := cur s; prev := prev s; red_done := red_done s; oracle := oracle s; log := log s; enq := enq s |}.
+Definition set_ret v s := {| bufs := bufs s; sbb := sbb s; dq := dq s; sendq := sendq s; pend := pend s; cbs := cbs s; intr := intr s; inprq := inprq s; rcnt := rcnt s; scnt := scnt s; ictr := ictr s; ret := v; depth := depth s; masks := masks s; flags := flags s; shared := shared s; nbar := nbar s; inmain := inmain s; cur := cur s; prev := prev s; red_done := red_done s; oracle := oracle s; log := log s; enq := enq s |}.
+Definition set_depth v s := {| bufs := bufs s; sbb := sbb s; dq := dq s; sendq := sendq s; pend := pend s; cbs := cbs s; intr := intr s; inprq := inprq s; rcnt := rcnt s; scnt := scnt s; ictr := ictr s; ret := ret s; depth := v; masks := masks s; flags := flags s; shared := shared s; nbar := nbar s; inmain := inmain s; cur := cur s; prev := prev s; red_done := red_done s; oracle := oracle s; log := log s; enq := enq s |}.
+Definition set_masks v s := {| bufs := bufs s; sbb := sbb s; dq := dq s; sendq := sendq s; pend := pend s; cbs := cbs s; intr := intr s; inprq := inprq s; rcnt := rcnt s; scnt := scnt s; ictr := ictr s; ret := ret s; depth := depth s; masks := v; flags := flags s; shared := shared s; nbar := nbar s; inmain := inmain s; cur := cur s; prev := prev s; red_done := red_done s; oracle := oracle s; log := log s; enq := enq s |}.
+Definition set_flags v s := {| bufs := bufs s; sbb := sbb s; dq := dq s; sendq := sendq s; pend := pend s; cbs := cbs s; intr := intr s; inprq := inprq s; rcnt := rcnt s; scnt := scnt s; ictr := ictr s; ret := ret s; depth := depth s; masks := masks s; flags := v; shared := shared s; nbar := nbar s; inmain := inmain s; cur := cur s; prev := prev s; red_done := red_done s; oracle := oracle s; log := log s; enq := enq s |}.
+Definition set_shared v s := {| bufs := bufs s; sbb := sbb s; dq := dq s; sendq := sendq s; pend := pend s; cbs := cbs s; intr := intr s; inprq := inprq s; rcnt := rcnt s; scnt := scnt s; ictr := ictr s; ret := ret s; depth := depth s; masks := masks s; flags := flags s; shared := v; nbar := nbar s; inmain := inmain s; cur := cur s; prev := prev s; red_done := red_done s; oracle := oracle s; log := log s; enq := enq s |}.
+Definition set_nbar v s := {| bufs := bufs s; sbb := sbb s; dq := dq s; sendq := sendq s; pend := pend s; cbs := cbs s; intr := intr s; inprq := inprq s; rcnt := rcnt s; scnt := scnt s; ictr := ictr s; ret := ret s; depth := depth s; masks := masks s; flags := flags s; shared := shared s; nbar := v; inmain := inmain s; cur := cur s; prev := prev s; red_done := red_done s; oracle := oracle s; log := log s; enq := enq s |}.
+Definition set_inmain v s := {| bufs := bufs s; sbb := sbb s; dq := dq s; sendq := sendq s; pend := pend s; cbs := cbs s; intr := intr s; inprq := inprq s; rcnt := rcnt s; scnt := scnt s; ictr := ictr s; ret := ret s; depth := depth s; masks := masks s; flags := flags s; shared := shared s; nbar := nbar s; inmain := v; cur := cur s; prev := prev s; red_done := red_done s; oracle := oracle s; log := log s; enq := enq s |}.
+Definition set_cur v s := {| bufs := bufs s; sbb := sbb s; dq := dq s; sendq := sendq s; pend := pend s; cbs := cbs s; intr := intr s; inprq := inprq s; rcnt := rcnt s; scnt := scnt s; ictr := ictr s; ret := ret s; depth := depth s; masks := masks s; flags := flags s; shared := shared s; nbar := nbar s; inmain := inmain s; cur := v; prev := prev s; red_done := red_done s; oracle := oracle s; log := log s; enq := enq s |}.
+Definition set_prev v s := {| bufs := bufs s; sbb := sbb s; dq := dq s; sendq := sendq s; pend := pend s; cbs := cbs s; intr := intr s; inprq := inprq s; rcnt := rcnt s; scnt := scnt s; ictr := ictr s; ret := ret s; depth := depth s; masks := masks s; flags := flags s; shared := shared s; nbar := nbar s; inmain := inmain s; cur := cur s; prev := v; red_done := red_done s; oracle := oracle s; log := log s; enq := enq s |}.
+Definition set_red_done v s := {| bufs := bufs s; sbb := sbb s; dq := dq s; sendq := sendq s; pend := pend s; cbs := cbs s; intr := intr s; inprq := inprq s; rcnt := rcnt s; scnt := scnt s; ictr := ictr s; ret := ret s; depth := depth s; masks := masks s; flags := flags s; shared := shared s; nbar := nbar s; inmain := inmain s; cur := cur s; prev := prev s; red_done := v; oracle := oracle s; log := log s; enq := enq s |}.
+Definition set_oracle v s := {| bufs := bufs s; sbb := sbb s; dq := dq s; sendq := sendq s; pend := pend s; cbs := cbs s; intr := intr s; inprq := inprq s; rcnt := rcnt s; scnt := scnt s; ictr := ictr s; ret := ret s; depth := depth s; masks := masks s; flags := flags s; shared := shared s; nbar := nbar s; inmain := inmain s; cur := cur s; prev := prev s; red_done := red_done s; oracle := v; log := log s; enq := enq s |}.
+Definition set_enq v s := {| bufs := bufs s; sbb := sbb s; dq := dq s; sendq := sendq s; pend := pend s; cbs := cbs s; intr := intr s; inprq := inprq s; rcnt := rcnt s; scnt := scnt s; ictr := ictr s; ret := ret s; depth := depth s; masks := masks s; flags := flags s; shared := shared s; nbar := nbar s; inmain := inmain s; cur := cur s; prev := prev s; red_done := red_done s; oracle := oracle s; log := log s; enq := v |}.
 
 (* an MPI call: log it, pop the response *)
 Definition ask (e : event) (s : st) (k : resp -> st -> res) : res :=
@@ -147,7 +149,7 @@ Definition locals_of (c : cfg) : list Z := local_ranks_of (c_p c) (c_me c / c_p 
 Definition enqueue (c : cfg) (d : Z) (m : msg) (s : st) : st :=
   let s1 := if match buf_at s d with [] => true | _ => false end then set_dq (dq s ++ [d]) s else s in
   let s2 := set_sbb (sbb s1 + wire c m) s1 in
-  set_bufs (upd (bufs s2) (Z.to_nat d) (buf_at s2 d ++ [m])) s2.
+  set_enq ((d, m) :: enq s) (set_bufs (upd (bufs s2) (Z.to_nat d) (buf_at s2 d ++ [m])) s2).
 
 Inductive proc :=
 | PActs (l : list act)
@@ -383,7 +385,7 @@ Fixpoint run (fuel : nat) (c : cfg) (p : proc) (s : st) : res :=
 Definition init_st (nranks : nat) (orc : list resp) : st :=
   {| bufs := repeat [] nranks; sbb := 0; dq := []; sendq := []; pend := 0; cbs := []; intr := true; inprq := false;
      rcnt := 0; scnt := 0; ictr := 0; ret := false; depth := 0; masks := []; flags := []; shared := 1000; nbar := 0;
-     inmain := true; cur := (3, 4); prev := (1, 2); red_done := false; oracle := orc; log := [] |}.
+     inmain := true; cur := (3, 4); prev := (1, 2); red_done := false; oracle := orc; log := []; enq := [] |}.
 
 (* the whole life of the communicator after construction: the main program, then ~comm()'s barrier *)
 Definition run_rank (fuel : nat) (c : cfg) (nranks : nat) (main : list act) (orc : list resp) : res :=
